@@ -336,6 +336,31 @@ def config_check(prop, tier, seed):
     wa = K.run_and_validate("C16_put_debug", wprogs, profile="debug")
     wb = K.run_and_validate("C16_put_release", wprogs, profile="release")
     comps.append(G.compare("C16_put_release_vs_debug", wa["trace"], wb["trace"]))
+    # honest user-defined buffers of (nearly) usize::MAX bytes under the adapters: lengths whose sums overflow.
+    # The law module cannot hold such contents, so these programs are only compared between the profiles.
+    MX = "max"
+    def zeros(n):
+        return {"k": "zeros", "n": n}
+    def sl(d):
+        return {"k": "slice", "d": d}
+    huge_trees = [
+        {"k": "chain", "a": zeros(MX), "b": zeros(MX)},
+        {"k": "chain", "a": zeros({"max": -1}), "b": sl([1, 2, 3])},
+        {"k": "chain", "a": sl([1, 2, 3]), "b": zeros(MX)},
+        {"k": "take", "limit": MX, "t": {"k": "chain", "a": zeros({"max": -2}), "b": zeros(7)}},
+        {"k": "chain", "a": {"k": "chain", "a": zeros(MX), "b": sl([9])}, "b": zeros({"max": -5})},
+        {"k": "ref", "t": {"k": "chain", "a": zeros({"max": -3}), "b": zeros(4)}},
+        {"k": "chain", "a": {"k": "take", "limit": 5, "t": zeros(MX)}, "b": zeros(MX)},
+    ]
+    def hop(op, n=0, m=""):
+        return {"op": op, "m": m, "n": n, "path": []}
+    huge_ops = [[hop("remaining"), hop("has_remaining")], [hop("copy_to_slice", 4), hop("remaining")], [hop("advance", 5), hop("remaining")],
+                [hop("chunk"), hop("copy_to_bytes", 3)], [hop("get", 0, "get_u32"), hop("remaining")], [hop("try_copy_to_slice", 6)],
+                [hop("advance", MX)], [hop("iter_nth", 2), hop("remaining")]]
+    hprogs = [{"side": "buf", "tree": t_, "ops": o_} for t_ in huge_trees for o_ in huge_ops]
+    ha = K.run_and_validate("C16_huge_debug", hprogs, profile="debug", validate=False)
+    hb = K.run_and_validate("C16_huge_release", hprogs, profile="release", validate=False)
+    comps.append(G.compare("C16_huge_release_vs_debug", ha["trace"], hb["trace"]))
     # pure functions (formatting, comparisons): debug vs release
     from . import pure as P
     for mode in ("fmt", "cmp"):
